@@ -25,6 +25,12 @@ def parseECmd (t : String) : Option (ECmd × Spec.PCmd) :=
 
 def parseOp : List String → Option (Op × Spec.POp)
   | ["connect", p] => p.toNat?.map fun p => (.connect p, .connect p)
+  | ["dial", p] => p.toNat?.map fun p => (.dial p, .connect p)
+  | ["resolve", c, p] =>
+    match c.toNat?, p.toNat? with
+    | some c, some p => some (.resolve c p, .other)
+    | _, _ => none
+  | ["incoming"] => some (.incoming, .other)
   | ["close", c] => c.toNat?.map fun c => (.close c, .close c)
   | ["disconnect", p] => p.toNat?.map fun p => (.disconnect p, .disconnect p)
   | ["rclose", c] => c.toNat?.map fun c => (.rclose c, .rclose c)
@@ -42,6 +48,7 @@ def showRet : Ret → String
   | .closed c => s!"closed:{c}"
   | .est c p => s!"est:{c}:{p}"
   | .fail c => s!"fail:{c}"
+  | .incoming c => s!"inc:{c}"
 
 def showPairs (l : List (Nat × Nat)) : String :=
   if l.isEmpty then "-" else ",".intercalate (l.map fun (c, n) => s!"{c}:{n}")
@@ -54,8 +61,8 @@ def showOut (op : Op) : Out → String
     | _ => if b then "res=true" else "res=false"
   | .unit => "res=-"
   | .n k => s!"n={k}"
-  | .poll ret deliv drops ne bad =>
-    s!"ret={showRet ret} deliv={showPairs deliv} drops={showNatList drops} ne={ne}" ++
+  | .poll ret deliv drops ne em bad =>
+    s!"ret={showRet ret} deliv={showPairs deliv} drops={showNatList drops} ne={ne} em={showNatList em}" ++
       (if bad then " bad-oracle" else "")
 
 def parseRet (s : String) : Option Spec.PRet :=
@@ -68,6 +75,7 @@ def parseRet (s : String) : Option Spec.PRet :=
     | some c, some p => some (.est c p)
     | _, _ => none
   | ["fail", c] => c.toNat?.map .fail
+  | ["inc", c] => c.toNat?.map .incoming
   | _ => none
 
 def parsePairs (s : String) : Option (List (Nat × Nat)) :=
@@ -96,10 +104,11 @@ def machine : Machine State Spec.Mon where
     | some (_, pop) =>
       let m := m.op pop
       match pop, outs with
-      | .poll, [r, d, x, _ne] =>
-        match (kv "ret" r).bind parseRet, (kv "deliv" d).bind parsePairs, (kv "drops" x).bind natList with
-        | some ret, some deliv, some drops => m.poll ret deliv drops
-        | _, _, _ => (m, "FAIL:unparsable_impl")
+      | .poll, [r, d, x, _ne, e] =>
+        match (kv "ret" r).bind parseRet, (kv "deliv" d).bind parsePairs, (kv "drops" x).bind natList,
+              (kv "em" e).bind natList with
+        | some ret, some deliv, some drops, some em => m.poll ret deliv drops em
+        | _, _, _, _ => (m, "FAIL:unparsable_impl")
       | .poll, _ => (m, "FAIL:unparsable_impl")
       | _, ("panic" :: _) => (m, "FAIL:panic")
       | _, _ => (m, "ok")
